@@ -13,4 +13,4 @@ Extraction "model.ml"
   ext_gcd mult_inverse is_prime frun_dump
   ext_gcd_tr mult_inverse_tr is_prime_tr frun_tr_dump tsummary
   simpleb create_index spanning_forest greedy_fvs greedy_fvs_det
-  is_bfs_reachable construct_spanner spanner_weights stable_scan max_hops.
+  is_bfs_reachable construct_spanner spanner_weights stable_scan merge_scan max_hops.
